@@ -216,12 +216,12 @@ func cmdCheck(args []string) {
 		}
 		b.Budget = budget
 		req := map[string]interface{}{"obligation": "", "func": b.Func, "seed": seed, "budget": budget}
-		out, text, err := runHarness(h, req, "bounded-"+sanitize(b.Name))
+		out, text, err := runHarness(h, req, "bounded-"+fileName(b.Name))
 		if err != nil {
 			// a stand-in that cannot run has checked nothing: reported, never passed over silently
 			b.Violation = "harness error: " + err.Error() + " " + text
 			violations++
-			path := filepath.Join(replayDir, fmt.Sprintf("%s-bounded-%s.json", *prop, sanitize(b.Name)))
+			path := filepath.Join(replayDir, fmt.Sprintf("%s-bounded-%s.json", *prop, fileName(b.Name)))
 			writeJSON(path, map[string]interface{}{"property": *prop, "obligation": "bounded:" + b.Name, "replay": "the bounded stand-in could not be run", "harness_output": b.Violation})
 			fmt.Printf("VIOLATION property=%s replay=%s no-failing-input-found\n", *prop, path)
 			continue
@@ -232,7 +232,7 @@ func cmdCheck(args []string) {
 		if f, _ := out["found"].(bool); f {
 			violations++
 			b.Violation = fmt.Sprint(out["violation"])
-			path := filepath.Join(replayDir, fmt.Sprintf("%s-bounded-%s.json", *prop, sanitize(b.Name)))
+			path := filepath.Join(replayDir, fmt.Sprintf("%s-bounded-%s.json", *prop, fileName(b.Name)))
 			writeJSON(path, map[string]interface{}{"property": *prop, "obligation": "bounded:" + b.Name, "replay_result": out, "replay": "counterexample found on the real code (bounded sweep)"})
 			fmt.Printf("VIOLATION property=%s replay=%s\n", *prop, path)
 		}
@@ -505,3 +505,13 @@ func writeEvidence(pc *PropConfig, tier string, seed int, res *propResult, wall 
 func round3(f float64) float64 { return float64(int(f*1000+0.5)) / 1000 }
 
 // tryReplay is filled in by replay.go
+
+// fileName: a file-system safe, length-limited name for a replay file (long stand-in names are cut and made unique by a digest)
+func fileName(s string) string {
+	n := sanitize(s)
+	if len(n) <= 120 {
+		return n
+	}
+	h := sha256.Sum256([]byte(s))
+	return n[:120] + fmt.Sprintf("_%x", h[:4])
+}
